@@ -47,6 +47,8 @@ type Query implements Named {
   la: LA
   lb: LB
   listers: [Lister]
+  stray: Lister
+  strays: [Lister]
 }
 interface Lister { items(first: Int): String sub: Lister }
 type LA implements Lister { items(after: String, first: Int, tags: [String!] = ["t"]): String sub: LA }
@@ -70,6 +72,9 @@ type RQ struct {
 	La      *RLA
 	Lb      *RLB
 	Listers []interface{}
+	// values under interface typed fields whose Go type is bound to no implementer
+	Stray  interface{}
+	Strays []interface{}
 	// Go fields a GraphQL field name matches without regard to case but that are not exported
 	hidden  string
 	Private int
@@ -106,6 +111,12 @@ func (l *RLA) Items(after interface{}, first interface{}, tags interface{}) stri
 }
 func (l *RLB) Items(first interface{}) string { return fmt.Sprint("lb", first) }
 
+// RStray is nobody's implementation: no object type is named like it, registered for it or points
+// at it with @go.
+type RStray struct{ Sub *RStray }
+
+func (l *RStray) Items(first interface{}) string { return "stray" }
+
 type RM struct{}
 
 func (m *RM) Set(s string) *RQ { return newRQ(1) }
@@ -125,6 +136,8 @@ func newRQ(depth int) *RQ {
 		q.La = &RLA{Sub: &RLA{}}
 		q.Lb = &RLB{Sub: &RLB{}}
 		q.Listers = []interface{}{&RLA{}, &RLB{}, &RLA{}}
+		q.Stray = &RStray{Sub: &RStray{}}
+		q.Strays = []interface{}{&RLA{}, &RStray{}, nil, &RLB{}}
 	}
 	return q
 }
